@@ -14,3 +14,4 @@ ASSUMPTIONS = [K.A_BYTEORDER, K.A_ZLIB, K.A_TABLE, K.A_PRED]
 OBLIGATIONS = K.WRITER_LAYOUT + [K.WIG_SECTION_W, K.BED_SECTION_W, K.ZOOM_SECTION_W] + K.SPANS + [K.WIG_FLUSH, K.BED_FLUSH, K.WRITE_DATA, K.WRITE_MID, K.HEADER_ARGS, K.BUFSIZE, K.INDEX_PAIRS, K.ZOOM_OFFSETS, K.ZOOM_LIST]
 OBLIGATIONS = OBLIGATIONS + [K.TREE_OFFSETS]
 OBLIGATIONS = OBLIGATIONS + [K.EVERY_VALUE]
+OBLIGATIONS = OBLIGATIONS + [K.MAGICS]
